@@ -466,15 +466,18 @@ C18Type(Ctx &c, bool primary)
   if (primary) {
     an.push_back(100000);
     an.push_back(200000);
+    if (c.scale >= 4) an.push_back(1000000);
     for (uint64_t i = 0; i < 3 * c.scale; ++i) an.push_back(r.Range(1000, 60000));
   }
   std::vector<double> aal;
   const double astep = primary ? (c.scale >= 4 ? 0.01 : 0.05) : 0.5;
   for (double a = 0; a <= 3.0000001; a += astep) aal.push_back(std::min(a, 3.0));
-  for (double a : {1 - 1e-3, 1 + 1e-3, 1 - 1e-6, 1 + 1e-6, 1 - 1e-9, 1 + 1e-9, 1.0}) aal.push_back(a);
+  for (double a : {1 - 1e-3, 1 + 1e-3, 1 - 1e-6, 1 + 1e-6, 1 - 1e-9, 1 + 1e-9, 1.0, 0.992, 0.994, 0.996, 0.998, 1.002, 1.004, 1.006, 1.008,
+                   0.0005, 2.9995, 0.5005, 1.9995})
+    aal.push_back(a);
   for (auto n : an) {
     for (auto a : aal) {
-      if (n > 20000 && std::fmod(a * 100 + 0.5, 25.0) > 1.0 && a != 1.0) continue;
+      if (n > 20000 && std::fmod(a * 100 + 0.5, 25.0) > 1.0 && a != 1.0 && std::fabs(a - 1.0) > 0.009) continue;
       if (!c.Mine()) continue;
       C18Approx<I>(c, n, a, true);
     }
@@ -543,6 +546,19 @@ C19One(Ctx &c, const char *cls, Rng &r)
   D<I> massigned;
   massigned = std::move(tmp2);
   same(massigned, "move-assigned");
+  // moved-from objects are assigned to again (from the original, from a twin, by copy and by move)
+  tmp = a;
+  same(tmp, "copy-assigned-into-moved-from");
+  tmp2 = b;
+  same(tmp2, "copy-assigned-into-moved-from-twin");
+  {
+    D<I> src{a};
+    D<I> victim{a};
+    D<I> sink{std::move(victim)};
+    victim = std::move(src);
+    same(victim, "move-assigned-into-moved-from");
+    same(sink, "move-constructed-2");
+  }
   same(a, "original-after-copies-and-moves");
   // concurrent sharing of one const generator
   const D<I> &shared = a;
